@@ -118,6 +118,7 @@ pub mod k {
     pub const SERVER_IDLE2_MS: i128 = 85; // >=0: max_idle_timeout of the server's configuration from phase 2 of a 0-RTT scenario on (0 = none)
     pub const FORGET_AT: i128 = 86; // us: the server process restarts (fresh Endpoint, same reset key and server config): every connection state is lost
     pub const MIGRATE_SILENT: i128 = 87; // 1: the client is not told about its address change (NAT rebinding): no local_address_changed()
+    pub const RETRY2: i128 = 88; // 1: an on-path attacker (a second server endpoint with another token key) answers the client's token-bearing Initial with its own, well-formed Retry, delivered before the real server's reply
     pub const DGRAM_START: i128 = 81; // us: application datagrams are not sent before this instant
     pub const RECONNECT: i128 = 70; // open this many further client connections, one per drained connection (slot reuse)
 }
@@ -326,6 +327,28 @@ pub struct World {
     app_wakes: Vec<u64>,
     tp: Option<Arc<crate::hostile_tp::TpShared>>,
     restart_cfg: Option<Arc<EndpointConfig>>,
+    att_ep: Option<Endpoint>,
+    retry2_done: bool,
+}
+
+/// long-header Initial (QUIC v1) whose token is not empty
+fn initial_has_token(d: &[u8]) -> bool {
+    if d.len() < 7 || d[0] & 0xF0 != 0xC0 {
+        return false;
+    }
+    let mut p = 5;
+    let dl = d[p] as usize;
+    p += 1 + dl;
+    if p >= d.len() {
+        return false;
+    }
+    let sl = d[p] as usize;
+    p += 1 + sl;
+    if p >= d.len() {
+        return false;
+    }
+    // token length varint: non-zero
+    d[p] != 0
 }
 
 fn ecn_code(e: Option<EcnCodepoint>) -> i128 {
@@ -481,6 +504,8 @@ impl World {
             app_wakes: Vec::new(),
             tp: None,
             restart_cfg: None,
+            att_ep: None,
+            retry2_done: false,
             p,
         };
         let (cert, key) = load_cert();
@@ -558,6 +583,14 @@ impl World {
             c2.cid_generator(Arc::new(move || Box::new(SeqCidGen { next: 0, len: cid_len, lifetime: lt, tag: 0x7E }) as Box<dyn ConnectionIdGenerator>));
             Arc::new(c2)
         });
+        if w.p.get(k::RETRY2, 0) == 1 {
+            let (cert, key) = load_cert();
+            let certd = quinn_proto::rustls::pki_types::CertificateDer::from(cert);
+            let keyd = quinn_proto::rustls::pki_types::PrivateKeyDer::Pkcs8(key.into());
+            let mut acfg = ServerConfig::with_single_cert(vec![certd], keyd).unwrap();
+            acfg.token_key(quinn_proto_token_key(seed ^ 0xDEAD_BEEF));
+            w.att_ep = Some(Endpoint::new(mk_ep_cfg(0xA7, seed ^ 0x7777), Some(Arc::new(acfg)), true));
+        }
         let caddr = SocketAddr::new(IpAddr::V4(Ipv4Addr::new(10, 0, 0, 1)), 40000);
         let saddr = SocketAddr::new(IpAddr::V4(Ipv4Addr::new(10, 0, 0, 2)), 4433);
         let allow_mtud = true;
@@ -687,6 +720,27 @@ impl World {
         let garbage = p.get(k::GARBAGE, 0);
         if self.rng.chance((replay + spoof + garbage).min(500)) && self.stored.len() < 64 {
             self.stored.push((src, dst, data.clone(), origin));
+        }
+        if src_ep == 0 && !self.retry2_done && self.att_ep.is_some() && initial_has_token(&data) {
+            // the attacker sees the client's second Initial (it carries the Retry token) and answers
+            // with a Retry of its own: correct integrity tag, spoofed from the server's address,
+            // faster than the real server
+            self.retry2_done = true;
+            let now_i = self.inst(self.now);
+            let mut buf = Vec::new();
+            let att = self.att_ep.as_mut().unwrap();
+            if let Some(DatagramEvent::NewConnection(incoming)) = att.handle(now_i, src, None, None, BytesMut::from(&data[..]), &mut buf) {
+                if incoming.may_retry() {
+                    if let Ok(tr) = att.retry(incoming, &mut buf) {
+                        let d = buf[..tr.size].to_vec();
+                        self.seq += 1;
+                        let sz = d.len() as i128;
+                        self.net.push(Pkt { at: self.now + dmin / 2 + 1, seq: self.seq, src: dst, dst: src, ecn: None, data: d, origin: -2, kind: 7 });
+                        self.trace.push(vec![9, t, idx as i128, 7, did, sid, sz]);
+                        self.trace.push(vec![13, t, 12, sz]);
+                    }
+                }
+            }
         }
         let fair = self.p.get(k::FAIR_RUN, 0);
         let mut lose = self.rng.chance(loss);
